@@ -639,7 +639,7 @@ def layout_probe(lines):
                 body = re.sub(r"pub trait T\d+ ", "pub trait Tr ", rendered[ti])
                 ti += 1
                 mods.append("pub mod %s%d { use super::*;\n%s}\n" % (side, k, body))
-            calls.append("    p(compare_layouts(Some(<a%d::TrBox<'static> as StableAbi>::LAYOUT), Some(<b%d::TrBox<'static> as StableAbi>::LAYOUT)));" % (k, k))
+            calls.append("    pr(<a%d::TrBox<'static> as StableAbi>::LAYOUT, <b%d::TrBox<'static> as StableAbi>::LAYOUT);" % (k, k))
         elif hdr[0] == 320:
             # the same pair of traits as MEMBERS of a group (header field 5: 0 = mandatory, 1 = optional member); the groups' layouts are compared
             role = hdr[4] if len(hdr) > 4 else 1
@@ -648,19 +648,21 @@ def layout_probe(lines):
                 ti += 1
                 grp = "cglue_trait_group!(G, Pa, { Tr });" if role == 1 else "cglue_trait_group!(G, Tr, { Pa });"
                 mods.append("pub mod %s%d { use super::*;\n%s%s\n}\n" % (side, k, body, grp))
-            calls.append("    p(compare_layouts(Some(<a%d::GBox<'static> as StableAbi>::LAYOUT), Some(<b%d::GBox<'static> as StableAbi>::LAYOUT)));" % (k, k))
+            calls.append("    pr(<a%d::GBox<'static> as StableAbi>::LAYOUT, <b%d::GBox<'static> as StableAbi>::LAYOUT);" % (k, k))
         else:
             for side, rows in (("a", a), ("b", b)):
                 nm = rows[0][0]
                 names = ["".join(chr(c) for c in r) for r in rows[1:]]
                 mods.append("pub mod %s%d { use super::*;\ncglue_trait_group!(G, { %s }, { %s });\n}\n" % (side, k, ", ".join(names[:nm]), ", ".join(names[nm:])))
-            calls.append("    p(compare_layouts(Some(<a%d::GBox<'static> as StableAbi>::LAYOUT), Some(<b%d::GBox<'static> as StableAbi>::LAYOUT)));" % (k, k))
+            calls.append("    pr(<a%d::GBox<'static> as StableAbi>::LAYOUT, <b%d::GBox<'static> as StableAbi>::LAYOUT);" % (k, k))
     pool = ["Pa", "Pb", "Pc", "Pd", "Pe"]
     head = ("#![allow(unused, dead_code, unused_imports, clippy::all)]\nuse cglue::prelude::v1::*;\nuse cglue::*;\nuse cglue::trait_group::{compare_layouts, VerifyLayout};\n"
             "use abi_stable::StableAbi;\n#[repr(C)]\n#[derive(Clone, Copy, StableAbi)]\npub struct Pod { pub a: u8, pub b: u32, pub c: i64 }\n"
             + "".join("#[cglue_trait]\npub trait %s { fn f%d(&self) -> u32; }\n" % (n, i) for i, n in enumerate(pool)) +
             "fn c(x: &VerifyLayout) -> i64 { match x { VerifyLayout::Valid => 0, VerifyLayout::Invalid => 1, VerifyLayout::Unknown => 2 } }\n"
             "fn p(x: VerifyLayout) { println!(\"{}\", c(&x)); }\n"
+            # a verdict is a function of the two descriptions: asked again after another, successful, comparison of the same `found` it is the same
+            "fn pr(a: &'static abi_stable::type_layout::TypeLayout, b: &'static abi_stable::type_layout::TypeLayout) { let v1 = c(&compare_layouts(Some(a), Some(b))); let vs = c(&compare_layouts(Some(b), Some(b))); let v2 = c(&compare_layouts(Some(a), Some(b))); let vr = c(&compare_layouts(Some(b), Some(a))); let _ = vr; if vs == 0 && v1 == v2 { println!(\"{}\", v1); } else { println!(\"9{}{}{}\", v1, vs, v2); } }\n"
             "fn v(i: i64) -> VerifyLayout { match i { 0 => VerifyLayout::Valid, 1 => VerifyLayout::Invalid, _ => VerifyLayout::Unknown } }\n")
     main = "fn main() {\n" + "\n".join(calls) + "\n}\n"
     open(os.path.join(d, "src", "main.rs"), "w").write(head + "".join(mods) + main)
